@@ -7,6 +7,8 @@ import (
 	"time"
 	_ "time/tzdata"
 
+	formula "github.com/aundis/formula"
+
 	"verif/internal/eng"
 	"verif/internal/ref"
 )
@@ -276,17 +278,22 @@ func judgeTod(c TodCase) *eng.Fail {
 				return eng.F("C19/eval", "timeFormat: %v %v %s", perr, o.err, o.panicMsg)
 			}
 			var want string
+			// the year element is a sign and at least four digits (-0005, 0099, 12345)
+			ys := fmt.Sprintf("%04d", y)
+			if y < 0 {
+				ys = fmt.Sprintf("-%04d", -y)
+			}
 			switch layout {
 			case "2006-01-02":
-				want = fmt.Sprintf("%04d-%02d-%02d", y, mo, d)
+				want = fmt.Sprintf("%s-%02d-%02d", ys, mo, d)
 			case "15:04:05":
 				want = fmt.Sprintf("%02d:%02d:%02d", c.H, c.Mi, c.S)
 			case "2006-01-02 15:04:05":
-				want = fmt.Sprintf("%04d-%02d-%02d %02d:%02d:%02d", y, mo, d, c.H, c.Mi, c.S)
+				want = fmt.Sprintf("%s-%02d-%02d %02d:%02d:%02d", ys, mo, d, c.H, c.Mi, c.S)
 			case "02/01/2006":
-				want = fmt.Sprintf("%02d/%02d/%04d", d, mo, y)
+				want = fmt.Sprintf("%02d/%02d/%s", d, mo, ys)
 			case "20060102150405":
-				want = fmt.Sprintf("%04d%02d%02d%02d%02d%02d", y, mo, d, c.H, c.Mi, c.S)
+				want = fmt.Sprintf("%s%02d%02d%02d%02d%02d", ys, mo, d, c.H, c.Mi, c.S)
 			}
 			if o.val != interface{}(want) {
 				return eng.F("C19/timeFormat", "timeFormat(%s, %q) = %s, expected %q", what, layout, show(o.val), want)
@@ -579,6 +586,23 @@ func judgeClock() *eng.Fail {
 	if f[1] > t1.UnixMilli() || f[1] < t0.UnixMilli()-2*86400*1000 {
 		return eng.F("C19/toDay", "toDay() = %d ms is not within the day before the call", f[1])
 	}
+	// every call has its own bracket: also on a runner that has read the clock before, in an evaluation
+	// that succeeded or in one that failed afterwards
+	r := formula.NewRunner()
+	for _, first := range []string{"millSecond(now())", "useTimezone(now(), 'No/Such_Zone')", "[toDay(), now(), missing!.k]", "$t = now(), millSecond($t)"} {
+		evalOn(r, first) // whatever it yields
+		time.Sleep(12 * time.Millisecond)
+		b0 := time.Now()
+		o2, err2 := evalOn(r, "[millSecond(now()), millSecond(addDate(now(), 0, 0, 0)), millSecond(toDay())]")
+		b1 := time.Now()
+		if err2 != nil || o2.panicked || o2.err != nil {
+			return eng.F("C19/eval", "now() on a runner that evaluated %s before: %v %v %s", first, err2, o2.err, o2.panicMsg)
+		}
+		g, ok := intsOf(o2.val, 3)
+		if !ok || g[0] < b0.UnixMilli() || g[0] > b1.UnixMilli() || g[1] < b0.UnixMilli() || g[1] > b1.UnixMilli() {
+			return eng.F("C19/now", "on a runner that evaluated %s 12 ms earlier, now() = %s ms lies outside the bracket [%d, %d] of its own call", first, show(o2.val), b0.UnixMilli(), b1.UnixMilli())
+		}
+	}
 	return nil
 }
 
@@ -684,6 +708,21 @@ func runC19(w *eng.W) {
 					}
 				}
 			}
+		}
+	}
+	// years before 1 and beyond 9999 (times supplied as data, rendered in their own zone)
+	for _, day := range [][3]int{{-5, 3, 7}, {-999, 12, 31}, {-1000, 1, 1}, {-1, 1, 1}, {0, 2, 29}, {99, 5, 5}, {9999, 12, 31}, {10000, 1, 1}, {12345, 6, 7}, {-12345, 6, 7}} {
+		if !mine() {
+			continue
+		}
+		for _, h := range []int{0, 13, 23} {
+			w.State(1)
+			w.Trans(8)
+			w.Trace(1)
+			w.Note("leg:timeofday-years", 1)
+			c := TodCase{Zone: zone, Y: day[0], Mo: day[1], D: day[2], H: h, Mi: 7, S: 9}
+			w.Sample("timeofday-years", c)
+			c19Tod.Do(w, c)
 		}
 	}
 	// instants reached through access paths (incl. the zero instant 0001-01-01T00:00:00Z)
